@@ -370,6 +370,9 @@ fn tag_case(i: usize) -> CaseResult {
             &format!("R:\n  v:\n    {}:\n      - Ref: x\n      - Fn::Join: ['-', [{{Ref: y}}, z]]\n", long),
             &format!("!{} nested", short),
         ),
+        // the idiomatic empty payload (`!GetAZs ""`), quoted either way, also nested in a sequence tag
+        4 if scalar_ok => tag_check(&format!("R:\n  v: !{} \"\"\n  w: [!{} '', x]\n", short, short), &format!("R:\n  v:\n    {}: \"\"\n  w: [{{'{}': ''}}, x]\n", long, long), &format!("!{} empty scalar", short)),
+        5 if scalar_ok => tag_check(&format!("R:\n  v: !Select [0, !{} \"\"]\n", short), &format!("R:\n  v:\n    Fn::Select: [0, {{'{}': \"\"}}]\n", long), &format!("!{} empty scalar nested", short)),
         _ => CaseResult::Discard("form-not-defined-for-tag"),
     }
 }
@@ -437,14 +440,14 @@ fn negative_check(text: &str, why: &str) -> CaseResult {
 
 pub fn run(tier: Tier, seed: u64) -> i32 {
     let spec = EvidenceSpec {
-        rule: "Stage 'documents': string-heavy documents (keyword-looking, number-looking, unicode, indicator characters, control characters; i64 bounds; floats incl. subnormal, 1e308, -0.0) written as JSON compact / JSON pretty / flow YAML / block YAML with random layout and quoting, loaded by validate (--payload and -d file), run_checks and the test command (JSON and YAML spec files). Oracles: (i) the loaded document, dumped through a failing unary check on the root, equals the generated one exactly (types, key order, list order); (ii) a generated probe battery (`this == <document as literal>`, per-leaf `path == <literal>` and `path is_<type>`) passes under every writer x loader. Stage 'tags': all 21 short-form intrinsic tags x {scalar, block sequence, flow sequence, nested} vs the long form. Stage 'negatives': non-string keys, aliases and malformed texts must be rejected by every loader. Non-trivial: >=1 quoted string, >=1 number, nesting >=2; distinct by document.".into(),
+        rule: "Stage 'documents': string-heavy documents (keyword-looking, number-looking, unicode, indicator characters, control characters; i64 bounds; floats incl. subnormal, 1e308, -0.0) written as JSON compact / JSON pretty / flow YAML / block YAML with random layout and quoting, loaded by validate (--payload and -d file), run_checks and the test command (JSON and YAML spec files). Oracles: (i) the loaded document, dumped through a failing unary check on the root, equals the generated one exactly (types, key order, list order); (ii) a generated probe battery (`this == <document as literal>`, per-leaf `path == <literal>` and `path is_<type>`) passes under every writer x loader. Stage 'tags': all 21 short-form intrinsic tags x {scalar, block sequence, flow sequence, nested, empty scalar, empty scalar nested} vs the long form. Stage 'negatives': non-string keys, aliases and malformed texts must be rejected by every loader. Non-trivial: >=1 quoted string, >=1 number, nesting >=2; distinct by document.".into(),
         assumptions: vec![
             "strings are written plain only when YAML 1.1 and 1.2 both read the token as a string; numbers, booleans and null always with their JSON spelling".into(),
             "probe queries only use keys that are plain identifiers".into(),
         ],
     };
     execute("C11", tier, seed, spec, &replay, &|run: &Session| {
-        run.run_enum("tags", TAGS.len() * 4, tag_case);
+        run.run_enum("tags", TAGS.len() * 6, tag_case);
         run.run_enum("negatives", NEGATIVES.len(), |i| negative_check(NEGATIVES[i].0, NEGATIVES[i].1));
         run.run_random("documents", tier.pick(40_000, 1_000_000), 400, |u| random_case(u, tier.pick(3, 4)));
     })
